@@ -669,14 +669,21 @@ func (m *metadataAPI) ReportLeader(ctx context.Context, req *proto.ReportLeaderO
 	verifGate("metadata.report_leader.checked")
 
 	m.mu.Lock()
+	// Check the leader epoch again now that the failover status is looked up:
+	// another report may have completed a failover since the check above, in
+	// which case this report refers to a previous leader and must not be
+	// registered as a witness against the new one.
+	leader, epoch = partition.GetLeader()
+	if req.Leader != leader || req.LeaderEpoch != epoch {
+		m.mu.Unlock()
+		return status.New(
+			codes.FailedPrecondition,
+			fmt.Sprintf("Leader generation mismatch, current leader: %s epoch: %d, got leader: %s epoch: %d",
+				leader, epoch, req.Leader, req.LeaderEpoch))
+	}
 	failover := m.partitionFailovers[partition]
 	if failover == nil {
-		failover = newPartitionFailoverStatus(
-			partition,
-			m.config.Clustering.ReplicaMaxLeaderTimeout,
-			m.newPartitionFailoverExpiredHandler(partition),
-			m.newPartitionFailoverHandler(partition),
-		)
+		failover = m.newPartitionFailover(partition, leader, epoch)
 		m.partitionFailovers[partition] = failover
 	}
 	m.mu.Unlock()
@@ -684,18 +691,26 @@ func (m *metadataAPI) ReportLeader(ctx context.Context, req *proto.ReportLeaderO
 	return failover.report(ctx, req.Replica)
 }
 
-func (m *metadataAPI) newPartitionFailoverExpiredHandler(p *partition) failoverExpiredHandler {
-	return func() {
-		m.mu.Lock()
-		delete(m.partitionFailovers, p)
-		m.mu.Unlock()
-	}
-}
-
-func (m *metadataAPI) newPartitionFailoverHandler(p *partition) failoverHandler {
-	return func(ctx context.Context) *status.Status {
-		return m.electNewPartitionLeader(ctx, p)
-	}
+// newPartitionFailover creates the failover status for reports against the
+// given leader and leader epoch of the partition. A failover triggered by it
+// only replaces that very leader, and when it expires it only removes itself.
+func (m *metadataAPI) newPartitionFailover(p *partition, leader string, epoch uint64) *failoverStatus {
+	var failover *failoverStatus
+	failover = newPartitionFailoverStatus(
+		p,
+		m.config.Clustering.ReplicaMaxLeaderTimeout,
+		func() {
+			m.mu.Lock()
+			if m.partitionFailovers[p] == failover {
+				delete(m.partitionFailovers, p)
+			}
+			m.mu.Unlock()
+		},
+		func(ctx context.Context) *status.Status {
+			return m.electNewPartitionLeader(ctx, p, leader, epoch)
+		},
+	)
+	return failover
 }
 
 // SetStreamReadonly sets a stream's readonly flag if this server is the
@@ -1594,7 +1609,24 @@ func (m *metadataAPI) getClusterServerIDs() ([]string, error) {
 // electNewPartitionLeader selects a new leader for the given partition,
 // applies this update to the Raft group, and notifies the replica set. This
 // will fail if the current broker is not the metadata leader.
-func (m *metadataAPI) electNewPartitionLeader(ctx context.Context, partition *partition) *status.Status {
+func (m *metadataAPI) electNewPartitionLeader(ctx context.Context, partition *partition,
+	failedLeader string, failedEpoch uint64) *status.Status {
+
+	// The failover is for a particular leader and leader epoch. If the leader
+	// has changed in the meantime, there is nothing to do. This is checked
+	// again as a precondition of the Raft operation below, i.e. atomically
+	// with respect to other leader changes.
+	checkLeader := func() error {
+		if leader, epoch := partition.GetLeader(); leader != failedLeader || epoch != failedEpoch {
+			return fmt.Errorf("Leader generation mismatch, current leader: %s epoch: %d, got leader: %s epoch: %d",
+				leader, epoch, failedLeader, failedEpoch)
+		}
+		return nil
+	}
+	if err := checkLeader(); err != nil {
+		return status.New(codes.FailedPrecondition, err.Error())
+	}
+
 	isr := partition.GetISR()
 	// TODO: add support for "unclean" leader elections.
 	if len(isr) <= 1 {
@@ -1629,7 +1661,12 @@ func (m *metadataAPI) electNewPartitionLeader(ctx context.Context, partition *pa
 	}
 
 	// Wait on result of replication.
-	future, err := m.getRaft().applyOperation(ctx, op, m.checkChangeLeaderPreconditions)
+	future, err := m.getRaft().applyOperation(ctx, op, func(op *proto.RaftLog) error {
+		if err := m.checkChangeLeaderPreconditions(op); err != nil {
+			return err
+		}
+		return checkLeader()
+	})
 	if err != nil {
 		return status.Newf(codes.FailedPrecondition, "%s", err.Error())
 	}
